@@ -15,14 +15,23 @@ if _src not in sys.path[:1]:
     sys.path.insert(0, _src)
 warnings.filterwarnings('ignore')
 os.environ.setdefault('MPLBACKEND', 'Agg')
-os.environ['TQDM_DISABLE'] = '1'  # read by tqdm when it is imported: bars stay silent, the library's own progress_bar code runs unchanged
 
 
 def quiet_library():
-    """Silence the cache logger's stdout handler and the chain's console handler (progress bars: TQDM_DISABLE above).
-    Nothing of the library is replaced. Idempotent."""
+    """Silence the cache logger's stdout handler, the chain's console handler and tqdm (the third-party bar the library's
+    progress_bar hands its data to is forced to `disable=True`; progress_bar itself runs unchanged). Idempotent."""
     import logging
 
+    import taskchain.utils.iter as it
+
+    for name in ('tqdm', 'tqdm_notebook'):
+        real = getattr(it, name, None)
+        if real is not None and not getattr(real, '_tcv_silent', False):
+            def silent(data=None, *a, _real=real, **k):
+                k['disable'] = True
+                return _real(data, *a, **k)
+            silent._tcv_silent = True
+            setattr(it, name, silent)
     import taskchain.cache as cache
 
     for h in list(cache.logger.handlers):
